@@ -36,6 +36,7 @@ type Contract struct {
 	Pure      bool // no heap effect, result is a function of the arguments (and heap if ReadsHeap)
 	ReadsHeap bool
 	Modifies  []string // region patterns; nil = computed by mod analysis; ["nothing"]
+	FrameFresh []string // regions the function writes only on objects it allocates itself (assumed refinement of the computed frame)
 	Opts      map[string]string
 	PanicsWhen []*Clause
 	Replay    string
@@ -287,8 +288,20 @@ func (cs *ContractSet) LoadFile(path, pkg string, trusted bool) error {
 			switch fields[0] {
 			case "requires":
 				cur.Requires = append(cur.Requires, mk(rest, p.line, true))
+			case "frame":
+				// frame fresh <region key>...: assumed refinement of the computed mod set
+				r2 := strings.TrimSpace(strings.TrimPrefix(rest, "fresh"))
+				cur.FrameFresh = append(cur.FrameFresh, strings.Fields(r2)...)
+				cs.Pragmas = append(cs.Pragmas, "assumed frame of "+cur.Func+": writes "+r2+" only on objects it allocates")
 			case "free":
 				// free requires <expr>: a system invariant assumed at this entry point (listed as an assumption)
+				if strings.HasPrefix(rest, "ensures") {
+					c := mk(strings.TrimSpace(strings.TrimPrefix(rest, "ensures")), p.line, true)
+					c.Free = true
+					cur.Ensures = append(cur.Ensures, c)
+					cs.Pragmas = append(cs.Pragmas, "free ensures of "+cur.Func+" (assumed, not checked): "+c.Src)
+					break
+				}
 				r2 := strings.TrimSpace(strings.TrimPrefix(rest, "requires"))
 				c := mk(r2, p.line, true)
 				c.Free = true
